@@ -277,6 +277,27 @@ def _unroll(fn: ast.AST, consts: dict[str, ast.expr], log: list[str]) -> None:
                 i += 1
 
 
+def _terminal(block: list[ast.stmt]) -> bool:
+    return bool(block) and isinstance(block[-1], (ast.Return, ast.Raise, ast.Continue, ast.Break))
+
+
+def _drop_else(fn: ast.AST) -> None:
+    """N7: `if c: ...return/raise/continue/break else: B` -> `if c: ...` followed by B (the else is redundant)."""
+    changed = True
+    while changed:
+        changed = False
+        for _owner, blk in list(_blocks(fn)):
+            for i, st in enumerate(blk):
+                if isinstance(st, ast.If) and st.orelse and _terminal(st.body):
+                    tail = st.orelse
+                    st.orelse = []
+                    blk[i + 1:i + 1] = tail
+                    changed = True
+                    break
+            if changed:
+                break
+
+
 def run(tree: ast.Module, mutable: set[str] | None = None) -> tuple[ast.Module, list[str]]:
     mutable = {'*'} if mutable is None else mutable
     log: list[str] = []
@@ -291,6 +312,7 @@ def run(tree: ast.Module, mutable: set[str] | None = None) -> tuple[ast.Module, 
                     blk[k] = a
     for fn in [n for n in tree.body if isinstance(n, (ast.FunctionDef, ast.AsyncFunctionDef))] + \
             [m for c in ast.walk(tree) if isinstance(c, ast.ClassDef) for m in c.body if isinstance(m, (ast.FunctionDef, ast.AsyncFunctionDef))]:
+        _drop_else(fn)
         _unroll(fn, consts, log)
         _fold(fn)
         for _owner, blk in _blocks(fn):
